@@ -1478,6 +1478,8 @@ class Interp:
             raise Unsupported('call of %s without contract' % f.name)
         if isinstance(f, VClass):
             return self.construct(f.name, args, kwargs)
+        if isinstance(f, VModel) and hasattr(f, 'call'):
+            return f.call(self, args, kwargs)
         raise Unsupported('call of %r' % (f,))
 
     def construct(self, name, args, kwargs):
